@@ -497,6 +497,84 @@ def scn_real(ctx):
     ctx.log("real verdict=ok")
 
 
+def scn_huge(ctx):
+    """More events than numpy's 8192-element iterator buffer, and one column that is not float64
+    (integer energies, float32 altitudes ...): the batch is built from whatever array types the
+    caller has.  The reference evaluates each distinct event one at a time with scalars of the
+    same types.  Expensive (seconds per run): two runs in the quick tier."""
+    from nuspacesim.simulation.eas_optical.cphotang import CphotAng
+
+    ch, tier = ctx.ch, ctx.tier
+    det_alt = DET_ALTS[ch.draw(3, "det_alt")]
+    kind = ("none", "const2")[ch.draw(2, "cloud")]
+    pool = _pool(tier)
+    fast = [i for i, e in enumerate(pool) if e[0] > 0.45][:12] or list(range(8))
+    n = 8193 + ch.draw(300, "N_huge")
+    variant = ("E:int", "alt:float32", "beta:float32", "all:float32")[ctx.idx % 4]
+    start = ch.draw(len(fast), "start")
+    stride = 1 + ch.draw(5, "stride")
+    sub = [fast[(start + k * stride) % len(fast)] for k in range(n)]
+    cols = [np.array([pool[i][c] for i in sub], dtype=np.float64) for c in range(5)]
+    if variant == "E:int":
+        cols[2] = np.maximum(1, np.round(cols[2] * 3.0 + np.arange(n) % 7)).astype(np.int64)
+    elif variant == "alt:float32":
+        cols[1] = cols[1].astype(np.float32)
+    elif variant == "beta:float32":
+        cols[0] = cols[0].astype(np.float32)
+    else:
+        cols = [c.astype(np.float32) for c in cols]
+    ctx.log(f"huge N={n} variant={variant} det_alt={det_alt:g} cloud={kind} distinct={len(set(sub))}")
+    ctx.describe.update(N=n, variant=variant, det_alt=det_alt, cloud=kind)
+    # reference: distinct rows only (the values repeat with period <= len(fast) * 7)
+    ref = {}
+    fresh_cloud = _cloud(kind)
+
+    def one(k):
+        key = tuple((c.dtype.str, c[k].item()) for c in cols)
+        if key not in ref:
+            st = np.random.get_state()
+            np.random.seed(20240917)
+            try:
+                r = CphotAng(det_alt).run(cols[0][k], cols[1][k], cols[2][k], cols[3][k], cols[4][k], fresh_cloud)
+                ref[key] = ("ok", float(np.float64(r[0])), float(np.float64(r[1])))
+            except BaseException as e:  # noqa: BLE001
+                ref[key] = ("exc", type(e).__name__)
+            finally:
+                np.random.set_state(st)
+        return ref[key]
+
+    exp = [one(k) for k in range(n)]
+    world = SimWorld(ctx, env.repo_src(), mode=("thread-atomic", "process")[ch.draw(2, "mode")], workers=1 + ch.draw(4, "workers"), chunksize=(1, 6)[ch.draw(2, "chunksize")],
+                     cfg={"tick": False, "fault": None, "stragglers": set(), "cost_spread": 4})
+    before = [c.tobytes() for c in cols]
+    res = exc = None
+    with world.active():
+        try:
+            res = CphotAng(det_alt)(*cols, fresh_cloud)
+        except HarnessError:
+            raise
+        except BaseException as e:  # noqa: BLE001
+            exc = e
+    ctx.probes["batch_gt_8192"] += 1
+    ctx.probes["column_" + variant] += 1
+    ctx.nontrivial = True
+    if any(e[0] == "exc" for e in exp):
+        if exc is None:
+            raise Violation("c10.fault_not_surfaced", "an event of the batch raises one at a time but the batch returned", sig="CphotAng.__call__")
+        return
+    if exc is not None:
+        raise Violation("c10.raised_without_fault", f"batch of {n} events ({variant}) raised {type(exc).__name__}: {str(exc)[:200]} although every event evaluates one at a time", sig="CphotAng.__call__")
+    d, c = np.asarray(res[0]), np.asarray(res[1])
+    if d.shape != (n,) or c.shape != (n,):
+        raise Violation("c10.huge.length", f"batch of {n} events returned shapes {d.shape} and {c.shape}", sig="CphotAng.__call__")
+    bad = np.nonzero((_bits(d) != _bits([e[1] for e in exp])) | (_bits(c) != _bits([e[2] for e in exp])))[0]
+    if bad.size:
+        k = int(bad[0])
+        raise Violation("c10.huge.bits", f"batch of {n} events with column {variant}: position {k} gave ({float(d[k])!r}, {float(c[k])!r}), the same event one at a time (same scalar types) gives {exp[k][1:]!r}; {bad.size} position(s) differ", sig="CphotAng.__call__")
+    if [c_.tobytes() for c_ in cols] != before:
+        ctx.probes["batch_arguments_modified"] += 1
+
+
 class _NullOut:
     def write(self, s):
         return len(s)
@@ -508,12 +586,12 @@ class _NullOut:
         return False
 
 
-FAMILIES = {"faultfree": scn_faultfree, "faults": scn_faults, "real": scn_real}
+FAMILIES = {"faultfree": scn_faultfree, "faults": scn_faults, "real": scn_real, "huge": scn_huge}
 OBSERVATIONAL = ("real",)
 
 PLAN = {
-    "quick": [("faultfree", 900, 6), ("faults", 500, 6), ("real", 16, 1)],
-    "thorough": [("faultfree", 40000, 20), ("faults", 20000, 20), ("real", 300, 2)],
+    "quick": [("huge", 2, 1), ("faultfree", 900, 6), ("faults", 500, 6), ("real", 16, 1)],
+    "thorough": [("faultfree", 40000, 20), ("faults", 20000, 20), ("real", 300, 2), ("huge", 16, 1)],
 }
 BUDGET = {"quick": 300, "thorough": 2700}
 
